@@ -91,18 +91,27 @@ Definition gpoll (w : gworld) (k : nat) : res (Z * gworld * nat) :=
 Definition rres_z (r : rres) : res Z :=
   match r with RMsg => Ok 1%Z | RMore => Ok 0%Z | RErr e => Ok (err_z e) | RFault => Fault end.
 
-(* streamRecv of stream_dispatch.c *)
-Definition grecv (v : variant) (d : dqueue) : res (Z * dqueue) :=
-  do '(r, d1) <- dqueue_recv v d;
+(* streamRecv of stream_dispatch.c: receive; while the decoder lacks scratch space enlarge the
+   input ring by 64 and receive again (every such round consumes at least 47 bytes of the frame:
+   ReaderLive.v, so the loop ends; the model gives it the length of the ring as fuel) *)
+Fixpoint grecv_loop (fuel : nat) (v : variant) (r : rres) (d1 : dqueue) : res (Z * dqueue) :=
   match r with
   | RErr MissingBuffer =>
-    match qprepare (dq_q d1) 64 FILL with
-    | Ok (q', _) => do '(r2, d2) <- dqueue_recv v (mkdq q' (dq_st d1)); do z <- rres_z r2; Ok (z, d2)
-    | Err _ => Ok (err_z MissingBuffer, d1)
-    | Fault => Fault
+    match fuel with
+    | 0 => Ok (err_z MissingBuffer, d1)
+    | S fuel =>
+      match qprepare (dq_q d1) 64 FILL with
+      | Ok (q', _) => do '(r2, d2) <- dqueue_recv v (mkdq q' (dq_st d1)); grecv_loop fuel v r2 d2
+      | Err _ => Ok (err_z MissingBuffer, d1)
+      | Fault => Fault
+      end
     end
   | _ => do z <- rres_z r; Ok (z, d1)
   end.
+
+Definition grecv (v : variant) (d : dqueue) : res (Z * dqueue) :=
+  do '(r, d1) <- dqueue_recv v d;
+  grecv_loop (S (qlen (dq_q d))) v r d1.
 
 Definition RETRY : Z := 65536%Z.
 
